@@ -174,22 +174,33 @@ impl Case {
         for x in &self.xargs {
             opts.push(vec![x.clone()]);
         }
-        // argument order: a permutation of the blocks derived from `shuffle`
-        if self.shuffle != 0 && opts.len() > 1 {
-            let mut r = crate::rng::Rng::new(self.shuffle);
-            for i in (1..opts.len()).rev() {
-                let j = r.below(i + 1);
-                opts.swap(i, j);
-            }
-        }
+        // argument order: every interleaving that keeps the relative order INSIDE each family (a block = the occurrences
+        // of one repeatable option; the input files are a family too) — derived from `shuffle`
+        let files: Vec<String> = self.sources.iter().filter_map(|s| s.name.as_ref().map(|n| format!("{scratch}/{n}"))).collect();
         let mut argv = vec!["jawk".to_string()];
-        for s in &self.sources {
-            if let Some(n) = &s.name {
-                argv.push(format!("{scratch}/{n}"));
+        if self.shuffle == 0 {
+            argv.extend(files);
+            for b in opts {
+                argv.extend(b);
             }
+            return argv;
         }
-        for b in opts {
-            argv.extend(b);
+        let mut fams: Vec<Vec<String>> = opts;
+        if !files.is_empty() {
+            fams.push(files);
+        }
+        // positions: a random permutation of the family labels (one label per token); the tokens of a family fill
+        // the positions carrying its label in their original order
+        let mut labels: Vec<usize> = fams.iter().enumerate().flat_map(|(i, f)| std::iter::repeat(i).take(f.len())).collect();
+        let mut r = crate::rng::Rng::new(self.shuffle);
+        for i in (1..labels.len()).rev() {
+            let j = r.below(i + 1);
+            labels.swap(i, j);
+        }
+        let mut next: Vec<usize> = vec![0; fams.len()];
+        for l in labels {
+            argv.push(fams[l][next[l]].clone());
+            next[l] += 1;
         }
         argv
     }
